@@ -69,11 +69,13 @@ def cases(tier, seed):
         for start in STARTS:
             for seq in itertools.product(range(len(SYMS)), repeat=length):
                 idx += 1
-                yield {'start': list(start), 'ops': list(seq), 'rot': (idx + seed) % 29}
+                yield {'start': list(start), 'ops': list(seq), 'rot': (idx + seed) % 29,
+                       'observe': 'end' if length > 1 and idx % 3 == 0 else 'every'}
     rng = random.Random(f'C13:{seed}')
     for k in range(300 if tier == 'quick' else 3000):
         yield {'start': list(rng.choice(STARTS)), 'rot': rng.randrange(29),
-               'ops': [rng.randrange(len(SYMS)) for _ in range(rng.randint(8, 40))]}
+               'ops': [rng.randrange(len(SYMS)) for _ in range(rng.randint(8, 40))],
+               'observe': 'end' if k % 2 else 'every'}
 
 
 class Unserialisable:
@@ -268,6 +270,9 @@ def run_case(case, env):
                          f'after step {i}: metadata.json exists={mdfile.exists()} but model has {len(model)} items',
                          step=i, ops=[SYMS[s] for s in case['ops'][:i]])
                 break
+            if case.get('observe') == 'end' and 0 < i < len(case['ops']):
+                res.count('steps_unobserved')     # reading through the live handle must not become part of the workload
+                continue
             if not observe(res, h.metadata, model, 'live'):
                 break
             if not observe(res, opener(path).metadata, model, 'fresh'):
